@@ -1,3 +1,7 @@
--- This module serves as the root of the `XvcPipeline` library.
--- Import modules here that should be built as part of the library.
-import XvcPipeline.Basic
+import XvcPipeline.Gen.StepFsm
+import XvcPipeline.Gen.RunCond
+import XvcPipeline.Gen.Handlers
+import XvcPipeline.Sched
+import XvcPipeline.Inv
+import XvcPipeline.Props.C10
+import XvcPipeline.Props.C13
